@@ -1,6 +1,7 @@
 import CookModel.Num.Fraction
 import CookModel.Lemmas.Fraction
 import CookModel.Lemmas.FractionMore
+import CookModel.Lemmas.FractionDisplay
 /-
   C12  Fraction approximation never misstates a value.
 
@@ -119,6 +120,23 @@ theorem C12_display_exact (t : List FracEntry) (v acc : Rat) (maxDen maxWhole w 
   simp only [Number.value, rat_ofNat, rat_add, rat_div] at hv
   rw [← hv]; grind
 
+/-- The printed *string*: reading the characters `Display` prints for a fraction (`0`, `w`, `n/d`,
+    `w n/d` — `FracForm.render`, the string the driver compares with the real `Display` output) back
+    as decimal numerals separated by one space and one slash (`readFraction`) gives exactly
+    `FracForm.denote`, for every print shape and all numbers. -/
+theorem C12_display_string_denotes (f : FracForm) :
+    readFraction f.render.toList = some f.denote :=
+  frd_read_render f
+
+/-- …hence for every fraction result of `new_approx`: the number read off the printed string, plus
+    the recorded error, is the input. -/
+theorem C12_display_string_exact (t : List FracEntry) (v acc : Rat) (maxDen maxWhole w n d : Nat)
+    (e : Rat) (h : newApprox t v acc maxDen maxWhole = some (.fraction w n d e)) :
+    ∃ x, readFraction
+        (fracForm (decide ((Number.fraction w n d e : Number Rat).value = 0)) w n d).render.toList
+      = some x ∧ x + e = v :=
+  ⟨_, frd_read_render _, C12_display_exact t v acc maxDen maxWhole w n d e h⟩
+
 /-- All clauses at once, on the table built from the current source constants, with no side
     condition: `new_approx` either declines, or the input is positive and the result has exactly
     the input as its value and is
@@ -159,6 +177,9 @@ example : 0 < Gen.APPROX_EPS.rat := by decide +kernel
 /-- `C12_display_exact` on a mixed fraction with a non-zero error: `2 1/3 (+1/300)` -/
 example : newApprox ratTable (2 + 1/3 + 1/300 : Rat) (5/100) 4 10 = some (.fraction 2 1 3 (1/300)) := by
   decide +kernel
+/-- the reader really reads: `2 1/3` is 7/3, and a string that is not a printed fraction is refused -/
+example : readFraction "2 1/3".toList = some (7/3) := by decide +kernel
+example : readFraction "2 1/".toList = none := by decide +kernel
 /-- the whole-part limit declines -/
 example : newApprox ratTable (7/2 : Rat) (5/100) 4 2 = none := by decide +kernel
 /-- the hypothesis of `C12_declines_nonfinite` at the exact instance -/
